@@ -244,7 +244,9 @@ _ADD = {
  "C02": (" Fault probe (direct monitor on the real code, harness/k3_c02_probe.cpp): the k-th connect() of the source throws under retry_when / "
          "repeat_effect_until (the re-connecting algorithms), k = 0..4: construction/destruction balance, no destructor on a dead or never constructed "
          "operation state, documented completion. Stored values: a bound-value watch in K2v2 (a successor operation checks in its destructor that the "
-         "value let_value bound for it is alive); their model (Calc2 stage 6) is not installed."),
+         "value let_value bound for it is alive). Calc2 stage 6: the values the algorithms store (let_value values_, let_error error_, finally's stored result, "
+         "when_all / stop_when / when_any stores) are events of the model with their own life-cycle key (KVal): the balance / exactly-once / nothing-after-"
+         "destruction theorems cover them for ALL expressions and scripts, and the K2v2 tie compares every store construction/destruction with the real code."),
  "C04": (" Fault probe (direct monitor, harness/k3_c04_probe.cpp): stop_on_request over 1-3 external tokens whose k-th callback registration throws: "
          "no callback left on the receiver's token at completion. when_all_range / stop_when: see the RegElect unit (Properties_C04_elect.v) when installed."),
  "C09": (" The spawn fault sweep also hands the sender over as an lvalue of a type with a throwing copy and a noexcept move (every noexcept-specification "
@@ -265,5 +267,9 @@ _ADD = {
          "four C++17 configurations and must print what the release build prints."),
  "C14": (" io_uring real-thread monitors: wall-clock bounds scaled by VERIF_TIME_SCALE (default 6); `resubmit 640` exercises completion-ring wrap-around."),
 }
+_ADD["C13"] = (" SCalc now contains next_adapt_stream / cleanup_adapt_stream / adapt_stream over a table of sender adaptors (then f, via, typed_via, on, "
+               "delay) and via_stream / typed_via_stream / on_stream / delay DEFINED as the headers define them; every theorem holds over the enlarged grammar, plus: "
+               "elements of next_adapt(then f) = map f; the scheduler streams yield exactly the source's elements; via completes after the hop, on_stream starts after it. "
+               "The harness schedulers are inline and ignore stop (a cancelled hop is not modelled).")
 for _k, _v in _ADD.items():
     PROPS[_k]["text"] = PROPS[_k]["text"] + _v
